@@ -216,7 +216,7 @@ def compare(lay, diags, res, confirm=None):
                 res.count("arms_with_alternatives_exact")
         if not bad:
             if o_ex and c_ex:
-                res.accepted.append(mi)
+                res.accepted.append(m)
             if len(res.samples) < 2 and (got["unreach"] or not c_ex) and len(m.arms) >= 3:
                 res.samples.append({"match": m.describe(), "values": v.n, "checker_missing": got["nonexh"],
                                     "checker_unreachable": sorted(got["unreach"]), "oracle_unmatched_values": bin(v.uncovered).count("1"),
@@ -335,11 +335,10 @@ def static_job(job):
                 pass
         if job.get("exec_n") and res.accepted:
             rng = core.derive_rng(job["prop"], job["seed"], "execpick", job["id"])
-            cand = [mi for mi in res.accepted if mg.nvalues(lay.matches[mi].ty) <= 2048]
-            # prefer matches that exercise something: several arms, guards, alternatives
-            cand.sort(key=lambda mi: (-min(len(lay.matches[mi].arms), 4), rng.random()))
-            pick = cand[:job["exec_n"]]
-            res.exec_matches = (list(defs), [lay.matches[mi] for mi in sorted(pick)])
+            cand = [m for m in res.accepted if mg.nvalues(m.ty) <= 2048]
+            # prefer matches that exercise something: several arms
+            cand.sort(key=lambda m: (-min(len(m.arms), 4), rng.random()))
+            res.exec_matches = (list(defs), cand[:job["exec_n"]])
     except Exception:
         import traceback
         res.inconc.append("worker failed: " + traceback.format_exc()[-1500:])
@@ -441,8 +440,13 @@ def run_exec_batch(ctx, execs):
             exp_line = "%d %d %s %s" % (mk, vi, arm, log)
             got_line = out[idx] if idx < len(out) else None
             if got_line != exp_line:
-                problem = (idx, mk, vi, arm, log, got_line)
-                break
+                # the first line with a wrong arm is reported in preference to an earlier line that only has a different log
+                wrong_arm = got_line in (None, "") or got_line.split(" ", 3)[:3] != exp_line.split(" ", 3)[:3]
+                if problem is None or wrong_arm:
+                    problem = (idx, mk, vi, arm, log, got_line)
+                if wrong_arm:
+                    break
+                continue
             ctx.count("values_executed")
         files = {"program.dora": src[name], "match.txt": m.describe() + "\n"}
         cmd = "%s %s" % (os.path.basename(built[name].exes[key]), " ".join(str(x) for x in [fi] + list(masks)))
